@@ -378,7 +378,7 @@ def rule_bits(R):
     stop_bb = flags_field[0].bb
 
     def cond_of(si):
-        r, n = chain(si["subject"])
+        r, n = chain(si["subject"], extra=("Option::<T>::as_ref", "Option::<T>::as_mut"))
         s_ = peel(si["subject"])
         if n[-1:] == ["clean_start"]:
             return "clean"
@@ -508,22 +508,46 @@ def rule_bits(R):
     if len(pf) != 1:
         raise AnchorLost("PublishHeader::fixed_header_flags")
     pf = pf[0]
-    ret_l = None
-    for bb, j, s in pf.assigns():
-        if s["dst"]["l"] == 0 and "use" in s["rv"]:
-            ret_l = pf.root_local(s["rv"]["use"])
-    inits = [pf.rvalue_term(s["rv"]) for bb, j, s in pf.assigns() if s["dst"]["l"] == ret_l and not s["dst"]["proj"]
-             and not ("bin" in s["rv"] and s["rv"]["bin"] == "BitOr")]
-    okq = len(inits) == 1 and valueset.evaluate(f, inits[0]) == {0, 2, 4} and any(x[0] == "field" and x[2] == "qos" for x in walk(inits[0]))
-    R.ob("bits/publish/qos", okq, "PUBLISH flags bits 2-1 = QoS", where=pf.span)
-    got = []
-    for (bb, x, span) in contributions(f, pf, lambda l: l == ret_l):
-        got.append((frozenset(valueset.evaluate(f, x) or []), " & ".join("%s=%s" % (g[0][-50:], g[1]) for g in guards_of(pf, bb))))
-    R.ob("bits/publish/retain", any(vs == frozenset({1}) and "retain" in g and "True" in g for vs, g in got),
-         "PUBLISH flags bit 0 = RETAIN when retained (found %s)" % [(sorted(a), b) for a, b in got], where=pf.span)
-    R.ob("bits/publish/dup", any(vs == frozenset({8}) and "dup=True" in g for vs, g in got),
-         "PUBLISH flags bit 3 = DUP when dup (found %s)" % [(sorted(a), b) for a, b in got], where=pf.span)
-    R.ob("bits/publish/no-extra", len(got) == 2, "no other contribution to the PUBLISH flags", where=pf.span)
+    # truth table: for every combination of the header's fields the function returns exactly
+    # (qos << 1) | retained | (dup << 3)  [MQTT 5 3.3.1].  One reading for `flags |= BIT` under an `if`, conditional
+    # values or-ed together, arithmetic on the booleans and a `match`.
+    PH = "packets::PublishHeader"
+    radt = f.adts.get("Retain") or f.adts.get("types::Retain") or {}
+    rdis = dict((v["name"], v["discr"]) for v in radt.get("variants", []))
+    qadt = f.adts.get("QoS") or f.adts.get("types::QoS") or {}
+    qdis = dict((v["name"], v["discr"]) for v in qadt.get("variants", []))
+    R.ob("bits/publish/anchors", set(rdis) == {"Retained", "NotRetained"} and sorted(qdis.values()) == [0, 1, 2],
+         "Retain has the variants Retained / NotRetained and QoS the values 0, 1, 2 (found %s, %s)" % (rdis, qdis), where=pf.span)
+    bad = {"qos": None, "retain": None, "dup": None, "no-extra": None}
+    rows = 0
+    if set(rdis) == {"Retained", "NotRetained"} and sorted(qdis.values()) == [0, 1, 2]:
+        for q in (0, 1, 2):
+            for rname in ("Retained", "NotRetained"):
+                for d in (0, 1):
+                    env = {(PH, "qos"): {q}, (PH, "retain"): {rdis[rname]}, (PH, "dup"): {d}}
+                    vs = valueset.evaluate_fn(f, pf, env)
+                    rows += 1
+                    what = "qos=%d retain=%s dup=%d -> %s" % (q, rname, d, sorted(vs) if vs is not None else "not evaluable")
+                    if vs is None or len(vs) != 1:
+                        for k_ in bad:
+                            bad[k_] = bad[k_] or what
+                        continue
+                    x = next(iter(vs))
+                    if (x >> 1) & 3 != q:
+                        bad["qos"] = bad["qos"] or what
+                    if (x & 1) != int(rname == "Retained"):
+                        bad["retain"] = bad["retain"] or what
+                    if (x >> 3) & 1 != d:
+                        bad["dup"] = bad["dup"] or what
+                    if x & ~0x0F:
+                        bad["no-extra"] = bad["no-extra"] or what
+    R.ob("bits/publish/qos", rows == 12 and bad["qos"] is None, "PUBLISH flags bits 2-1 = QoS (%s)" % (bad["qos"] or "12 rows"), where=pf.span)
+    R.ob("bits/publish/retain", rows == 12 and bad["retain"] is None,
+         "PUBLISH flags bit 0 = RETAIN exactly when retained (%s)" % (bad["retain"] or "12 rows"), where=pf.span)
+    R.ob("bits/publish/dup", rows == 12 and bad["dup"] is None,
+         "PUBLISH flags bit 3 = DUP exactly when dup (%s)" % (bad["dup"] or "12 rows"), where=pf.span)
+    R.ob("bits/publish/no-extra", rows == 12 and bad["no-extra"] is None,
+         "no other contribution to the PUBLISH flags (%s)" % (bad["no-extra"] or "12 rows"), where=pf.span)
 
 
 def field_sequence(body):
